@@ -682,6 +682,15 @@ class SymReal:
     def __pos__(self):
         return self
 
+    def __floordiv__(self, o):
+        if is_conc(o) and o == 1:
+            return SymReal(z3.ToReal(z3.ToInt(self.z)))
+        raise NotEncodable("floor division of a symbolic value by %r" % (o,))
+
+    def __trunc__(self):
+        z = self.z
+        return SymReal(z3.If(z >= 0, z3.ToReal(z3.ToInt(z)), -z3.ToReal(z3.ToInt(-z))))
+
     def __pow__(self, k):
         if is_conc(k):
             k = exact(k)
